@@ -404,3 +404,7 @@ def run(ctx, chk, tier):
     # hidden per-object state: a memo in the metric methods / decorator must be determined by its key (all arguments, keyword ones included)
     from . import c10
     c10.purity(ctx, chk, only=("ConfusionMatrix.", "metrics.", "utils.binomial_ci"), strict=False)
+    # a binary matrix may be handed over as nested lists, a dict of dicts or a DataFrame: the cells the rates are computed from are the labelled
+    # cells for every input form (R05.2)
+    from . import c05
+    c05.check_from_matrix(ctx, chk)
